@@ -1397,9 +1397,12 @@ class VM:
         def splice_fn(*args):
             length = len(arr._elements)
             start = relative_index(args[0], length) if args else 0
-            delete_count = (
-                to_integer_or_infinity(args[1]) if len(args) > 1 else length - start
-            )
+            if not args:
+                delete_count = 0  # splice() removes nothing
+            elif len(args) > 1:
+                delete_count = to_integer_or_infinity(args[1])
+            else:
+                delete_count = length - start
             items = list(args[2:]) if len(args) > 2 else []
 
             delete_count = max(0, min(delete_count, length - start))
